@@ -28,18 +28,18 @@ RX = {
 # (label, senders, sizes, earlies, closes, explore) ; explore=True: full interleaving check, False: scenarios only
 TX = {
     "quick": [
-        ("K3", "{1, 2, 3}", "{0, 1, 2, 3, 5}", "{FALSE, TRUE}", "{FALSE, TRUE}", True),
-        ("K1", "{1}", "{0, 1, 2, 3, 4, 5}", "{FALSE}", "{FALSE, TRUE}", False),
-        ("K2", "{1, 2}", "{1, 2, 3, 5}", "{FALSE}", "{FALSE, TRUE}", False),
-        ("K4", "{1, 2, 3, 4}", "{1, 2, 5}", "{FALSE}", "{FALSE}", False),
-        ("K8", "{1, 2, 3, 4, 5, 6, 7, 8}", "{1, 3}", "{FALSE, TRUE}", "{FALSE, TRUE}", False),
+        ("K3", "{1, 2, 3}", "{0, 1, 2, 3, 5}", "{FALSE, TRUE}", '{"none", "end", "mid"}', True),
+        ("K1", "{1}", "{0, 1, 2, 3, 4, 5}", "{FALSE}", '{"none", "end", "mid"}', False),
+        ("K2", "{1, 2}", "{1, 2, 3, 5}", "{FALSE}", '{"none", "end", "mid"}', False),
+        ("K4", "{1, 2, 3, 4}", "{1, 2, 5}", "{FALSE}", '{"none", "mid"}', False),
+        ("K8", "{1, 2, 3, 4, 5, 6, 7, 8}", "{1, 3}", "{FALSE, TRUE}", '{"none", "end", "mid"}', False),
     ],
     "thorough": [
-        ("K3", "{1, 2, 3}", "{0, 1, 2, 3, 4, 5}", "{FALSE, TRUE}", "{FALSE, TRUE}", True),
-        ("K1", "{1}", "{0, 1, 2, 3, 4, 5, 6, 7, 8, 9, 16, 17}", "{FALSE}", "{FALSE, TRUE}", False),
-        ("K2", "{1, 2}", "{0, 1, 2, 3, 4, 5}", "{FALSE}", "{FALSE, TRUE}", False),
-        ("K4", "{1, 2, 3, 4}", "{1, 2, 3, 5}", "{FALSE}", "{FALSE, TRUE}", False),
-        ("K8", "{1, 2, 3, 4, 5, 6, 7, 8}", "{1, 2, 3}", "{FALSE, TRUE}", "{FALSE, TRUE}", False),
+        ("K3", "{1, 2, 3}", "{0, 1, 2, 3, 4, 5}", "{FALSE, TRUE}", '{"none", "end", "mid"}', True),
+        ("K1", "{1}", "{0, 1, 2, 3, 4, 5, 6, 7, 8, 9, 16, 17}", "{FALSE}", '{"none", "end", "mid"}', False),
+        ("K2", "{1, 2}", "{0, 1, 2, 3, 4, 5}", "{FALSE}", '{"none", "end", "mid"}', False),
+        ("K4", "{1, 2, 3, 4}", "{1, 2, 3, 5}", "{FALSE}", '{"none", "end", "mid"}', False),
+        ("K8", "{1, 2, 3, 4, 5, 6, 7, 8}", "{1, 2, 3}", "{FALSE, TRUE}", '{"none", "end", "mid"}', False),
     ],
 }
 # G-sim pass of the receiver: random behaviours (several injected records in a row, phase changes included);
@@ -51,7 +51,7 @@ REPS = {"quick": dict(normal=3, burst=400, early=40), "thorough": dict(normal=12
 
 
 def write_cfg(path, part, *, deviations="{}", fb=None, senders="{1}", sizes="{0}", earlies="{FALSE}",
-              closes="{FALSE}", emit=None, invariants=None, props=None, constraint=None, reps="{1, 4, 5, 101}"):
+              closes='{"none"}', emit=None, invariants=None, props=None, constraint=None, reps="{1, 4, 5, 101}"):
     fb = fb or dict(FbApp=8, FbAlert=8, FbHs=8, FbCcs=8)
     if invariants is None:
         invariants = ["TypeOK"] + (["NonceUnique", "EpochProtected", "RecordLimit", "Carried"] if part == "tx" else [])
@@ -208,7 +208,7 @@ def concretise(scen, tier):
                 if key in seen_early:
                     continue  # early callers always submit 3 small payloads: sizes and close do not matter
                 seen_early.add(key)
-                rows.append({"sender": role, "sizes": [[1]] * k, "reps": reps["early"], "early": True, "close": False,
+                rows.append({"sender": role, "sizes": [[1]] * k, "reps": reps["early"], "early": True, "close": "none",
                              "label": s["label"]})
             else:
                 burst = s["label"] == "K8"
@@ -392,14 +392,15 @@ def selftest():
     ok = True
     want = {"Epoch0AppDataDelivered": ("rx", "OnlyAuthentic"), "Epoch0AlertHonoured": ("rx", "OnlyAuthentic"),
             "Epoch0HandshakeAdvances": ("rx", "OnlyAuthentic"), "PublishBeforeCounters": ("tx", "EpochProtected"),
-            "AlertUsesHandshakeSeq": ("tx", "NonceUnique"), "LoadStoreSeq": ("tx", "NonceUnique")}
+            "AlertUsesHandshakeSeq": ("tx", "NonceUnique"), "AlertKeepsSeq": ("tx", "NonceUnique"),
+            "LoadStoreSeq": ("tx", "NonceUnique")}
     for dev, (part, prop) in want.items():
         cfg = gen_cfg(f"selftest_{dev}")
         if part == "rx":
             write_cfg(cfg, "rx", deviations='{"%s"}' % dev, fb=dict(FbApp=8, FbAlert=8, FbHs=8, FbCcs=8))
         else:
             write_cfg(cfg, "tx", deviations='{"%s"}' % dev, senders="{1, 2}", sizes="{1, 3}",
-                      earlies="{FALSE, TRUE}", closes="{FALSE, TRUE}")
+                      earlies="{FALSE, TRUE}", closes='{"none", "end", "mid"}')
         res = vlib.tlc("MC_DtlsRecord", os.path.basename(cfg), timeout=600, workers=4, tag=f"C03self{dev}")
         rm(cfg)
         hit = any(prop in e for e in res["errors"])
@@ -407,7 +408,7 @@ def selftest():
         ok &= hit
     # (ii)
     vlib.build_harness([BIN])
-    rows = [{"sender": "client", "sizes": [[3], [2]], "reps": 2, "close": True, "early": False}]
+    rows = [{"sender": "client", "sizes": [[3], [2]], "reps": 2, "close": "mid", "early": False}]
     trace, _ = run_egress(ck, rows, "selftest")
     n, bad = validate_trace(ck, trace, "selftest")
     print(f"selftest: genuine trace accepted: {bad == []} ({n} events)")
